@@ -84,6 +84,10 @@ class _Run:
         if p not in self.pipes:
             rd, _wr = W.make_pipe(self.world, f"w{p}")
             rd.nonblocking = True
+            if p == 0 and self.scen["config"].get("fd0"):
+                # the first watched pipe is the program's standard input: descriptor number 0
+                self.world.remap_fd(rd, 0)
+                self.res.probe("watch_on_descriptor_zero")
             self.pipes[p] = rd
         return self.pipes[p]
 
@@ -626,6 +630,8 @@ class LoopsEngine(Engine):
             cfg["trio_async"] = True
         if kind in ("asyncio", "tornado", "twisted") and rng.random() < 0.2:
             cfg["decoy"] = True
+        if n_w and rng.random() < 0.25:
+            cfg["fd0"] = True
         scen = {"config": cfg, "ops": ops, "arrivals": arrivals, "rets": rets, "read_plans": read_plans}
         if rng.random() < 0.3:
             # run() a second time on the same loop object: new alarms (ids from 100), possibly a new idle
